@@ -115,7 +115,7 @@ type richRes struct {
 	Retain string
 }
 
-func scanRich(data []byte, procs, perturb int, seed int64) richRes {
+func scanRich(data []byte, procs, perturb int, seed int64, skip [3]bool) richRes {
 	ch := make(chan richRes, 1)
 	go func() {
 		jit := pipesup.Jitter(seed, 120)
@@ -127,6 +127,7 @@ func scanRich(data []byte, procs, perturb int, seed int64) richRes {
 			rd.Pause = func() { jit(1000000 + atomic.AddInt64(&reads, 1)) }
 		}
 		sc := osmpbf.New(context.Background(), rd, procs)
+		sc.SkipNodes, sc.SkipWays, sc.SkipRelations = skip[0], skip[1], skip[2]
 		if perturb&2 != 0 {
 			sc.FilterNode = func(n *osm.Node) bool { jit(int64(n.ID)); return true }
 			sc.FilterWay = func(w *osm.Way) bool { jit(int64(w.ID)); return true }
@@ -172,7 +173,10 @@ func canon(o osm.Object) string {
 	return "?"
 }
 
-func richCase(rng *rand.Rand, seed int64) *wire.Case {
+// richCases: one file, two scans back to back in this process: first with random Skip* options
+// (a scan with other options must not influence the next one: recycled decoder state), then the
+// plain scan.  Each is compared with its own expectation.
+func richCases(rng *rand.Rand, seed int64) []*wire.Case {
 	procs := 1 + rng.Intn(6)
 	if rng.Intn(6) == 0 {
 		procs = 7 + rng.Intn(10)
@@ -181,50 +185,66 @@ func richCase(rng *rand.Rand, seed int64) *wire.Case {
 	d := pbfgen.RandomFile(rng, o)
 	pbfrun.Renumber(d)
 	data, _ := pbfgen.Encode(d)
-	perturb := rng.Intn(8)
-	base := scanRich(data, 1, 0, seed)
-	r := scanRich(data, procs, perturb, seed)
-	c := &wire.Case{Class: "rich"}
-	c.Int(3).Int(int64(procs)).Bool(d.Header == nil)
-	c.Len(len(d.Blocks))
-	var exp []uint64
-	for i, b := range d.Blocks {
-		t := pbfrun.BlockToks(b, i, [3]bool{})
-		exp = append(exp, t...)
-		c.Len(len(t))
-		for _, x := range t {
+	var out []*wire.Case
+	skips := [][3]bool{{}, {}}
+	for skips[0] == ([3]bool{}) {
+		skips[0] = [3]bool{rng.Intn(2) == 0, rng.Intn(2) == 0, rng.Intn(3) == 0}
+	}
+	for k, skip := range skips {
+		perturb := rng.Intn(8)
+		p := procs
+		if k == 0 {
+			p = 1 + rng.Intn(2*procs)
+		}
+		base := scanRich(data, 1, 0, seed, skip)
+		r := scanRich(data, p, perturb, seed, skip)
+		c := &wire.Case{Class: "rich"}
+		if k == 0 {
+			c.Class = "rich-skip"
+		}
+		c.Int(3).Int(int64(p)).Bool(d.Header == nil)
+		c.Len(len(d.Blocks))
+		var exp []uint64
+		for i, b := range d.Blocks {
+			t := pbfrun.BlockToks(b, i, skip)
+			exp = append(exp, t...)
+			c.Len(len(t))
+			for _, x := range t {
+				c.Tok(x)
+			}
+		}
+		c.Int(int64(perturb))
+		c.Len(len(r.Toks))
+		for _, x := range r.Toks {
 			c.Tok(x)
 		}
-	}
-	c.Int(int64(perturb))
-	c.Len(len(r.Toks))
-	for _, x := range r.Toks {
-		c.Tok(x)
-	}
-	c.Int(r.Err)
-	var firstDiff interface{}
-	for i := range r.Toks {
-		if i >= len(exp) || r.Toks[i] != exp[i] {
-			firstDiff = map[string]interface{}{"index": i}
-			break
-		}
-	}
-	switch {
-	case r.Retain != "":
-		c.OracleFail = r.Retain
-	case len(base.Toks) != len(r.Toks) || base.Err != r.Err:
-		c.OracleFail = fmt.Sprintf("procs=%d delivers %d objects err %d, procs=1 delivers %d objects err %d", procs, len(r.Toks), r.Err, len(base.Toks), base.Err)
-	default:
+		c.Int(r.Err)
+		var firstDiff interface{}
 		for i := range r.Toks {
-			if r.Toks[i] != base.Toks[i] {
-				c.OracleFail = fmt.Sprintf("object %d differs between procs=%d and procs=1 (same file)", i, procs)
+			if i >= len(exp) || r.Toks[i] != exp[i] {
+				firstDiff = map[string]interface{}{"index": i}
 				break
 			}
 		}
+		switch {
+		case r.Retain != "":
+			c.OracleFail = r.Retain
+		case len(base.Toks) != len(r.Toks) || base.Err != r.Err:
+			c.OracleFail = fmt.Sprintf("procs=%d delivers %d objects err %d, procs=1 delivers %d objects err %d", p, len(r.Toks), r.Err, len(base.Toks), base.Err)
+		default:
+			for i := range r.Toks {
+				if r.Toks[i] != base.Toks[i] {
+					c.OracleFail = fmt.Sprintf("object %d differs between procs=%d and procs=1 (same file)", i, p)
+					break
+				}
+			}
+		}
+		c.Desc = map[string]interface{}{"procs": p, "perturb": perturb, "skip_nodes_ways_relations": skip, "scan_number_on_this_file": k + 1,
+			"file": d, "delivered_tokens": r.Toks, "expected_tokens": exp, "first_difference": firstDiff, "err": r.Err,
+			"note": "token = kind + 4*hash of the full canonical content of the object; scans run back to back in one process"}
+		out = append(out, c)
 	}
-	c.Desc = map[string]interface{}{"procs": procs, "perturb": perturb, "file": d, "delivered_tokens": r.Toks, "expected_tokens": exp,
-		"first_difference": firstDiff, "err": r.Err, "note": "token = kind + 4*hash of the full canonical content of the object"}
-	return c
+	return out
 }
 
 func itemsToks(c *wire.Case, f *pipesup.File) {
@@ -362,7 +382,7 @@ func main() {
 		}
 		w.Count("stress_trials")
 	}
-	nRich := int(45 * a.Scale)
+	nRich := int(30 * a.Scale)
 	if a.Tier == "thorough" {
 		nRich *= 10
 	}
@@ -370,9 +390,10 @@ func main() {
 		nRich *= 2
 	}
 	for i := 0; i < nRich; i++ {
-		c := richCase(rng, a.Seed*7+int64(i))
-		w.Add(c)
-		w.Count("rich")
+		for _, c := range richCases(rng, a.Seed*7+int64(i)) {
+			w.Add(c)
+			w.Count(c.Class)
+		}
 	}
 	// canaries: two adjacent delivered ids swapped; the error code altered
 	{
@@ -388,6 +409,29 @@ func main() {
 		e.Canary, e.Class = 1, "canary"
 		e.Toks[k-1] = 6
 		w.Add(e)
+	}
+	if a.Tier == "thorough" && os.Getenv("VERIF_RACE_CHILD") == "" {
+		// one slow consumer: it stalls for 11 s after the first object while the pipeline is full
+		// (nothing may give up on a consumer that is merely slow)
+		f := pipesup.GenFile(rng, 14, false)
+		ctx := context.Background()
+		sc := osmpbf.New(ctx, pipesup.NewReader(f), 2)
+		var ids []int64
+		for sc.Scan() {
+			ids = append(ids, pipesup.ObjID(sc.Object()))
+			if len(ids) == 1 {
+				time.Sleep(11 * time.Second)
+			}
+		}
+		e := pipesup.ErrCode(sc.Err())
+		sc.Close()
+		c := &wire.Case{Class: "slow-consumer"}
+		c.Int(1).Int(2).Bool(!f.Header)
+		itemsToks(c, f)
+		c.Int(0).Int(16).Ints(ids).Int(e)
+		c.Desc = map[string]interface{}{"procs": 2, "header": f.Header, "items": f.Items, "consumer": "sleeps 11 s after the first object",
+			"delivered": ids, "err": e, "expected": f.Expected()}
+		w.Add(c)
 	}
 	if a.Tier == "thorough" {
 		if rep := pipesup.RaceRun("c02", a.Out, a.Seed); rep != "" {
